@@ -367,6 +367,19 @@ func (c *client) sendErrorToAll(err error) {
 	c.mutex.Unlock()
 }
 
+// sendErrorToAllAndStopReadLoop is sendErrorToAll for errors that end the read loop. The loop is marked
+// as stopped in the same critical section that fails the pending entries: an Execute that registers
+// afterwards starts a new read loop (and gets its own error) instead of relying on one that is exiting.
+func (c *client) sendErrorToAllAndStopReadLoop(err error) {
+	result := NewErrorExecutionResult(err)
+	c.mutex.Lock()
+	for runID := range c.runningStepResultEntries {
+		c.sendExecutionResult(runID, result)
+	}
+	c.readLoopRunning = false
+	c.mutex.Unlock()
+}
+
 func (c *client) handleWorkDoneMessage(runtimeMessage DecodedRuntimeMessage) {
 	var doneMessage WorkDoneMessage
 	var result ExecutionResult
@@ -414,7 +427,7 @@ func (c *client) handleErrorMessage(runtimeMessage DecodedRuntimeMessage) bool {
 	resultMsg := fmt.Errorf("step with run ID %q sent error message: %s", runtimeMessage.RunID, errorMessageStr)
 	c.logger.Errorf(resultMsg.Error())
 	if errMessage.ServerFatal {
-		c.sendErrorToAll(resultMsg)
+		c.sendErrorToAllAndStopReadLoop(resultMsg)
 		return true // It's server fatal, so this is the last message from the server.
 	} else if errMessage.StepFatal {
 		if runtimeMessage.RunID == "" {
@@ -447,12 +460,12 @@ func (c *client) hasEntriesRemaining() bool {
 }
 
 func (c *client) executeReadLoop(cborReader *cbor.Decoder) {
-	stoppedWhenIdle := false // True once hasEntriesRemaining marked this loop as stopped.
+	markedStopped := false // True once this loop was marked as stopped under the lock that decided it.
 	defer func() {
 		c.mutex.Lock()
 		defer c.mutex.Unlock()
-		if !stoppedWhenIdle {
-			// Do not clear the flag again after an idle stop; a newer read loop may own it by now.
+		if !markedStopped {
+			// Do not clear the flag again after that; a newer read loop may own it by now.
 			c.readLoopRunning = false
 		}
 		c.wg.Done()
@@ -468,7 +481,8 @@ func (c *client) executeReadLoop(cborReader *cbor.Decoder) {
 				err,
 			)
 			// This is fatal since the entire structure of the runtime message is invalid.
-			c.sendErrorToAll(fmt.Errorf("failed to read or decode runtime message (%w)", err))
+			c.sendErrorToAllAndStopReadLoop(fmt.Errorf("failed to read or decode runtime message (%w)", err))
+			markedStopped = true
 			return
 		}
 		switch runtimeMessage.MessageID {
@@ -478,6 +492,7 @@ func (c *client) executeReadLoop(cborReader *cbor.Decoder) {
 			c.handleSignalMessage(runtimeMessage)
 		case MessageTypeError:
 			if c.handleErrorMessage(runtimeMessage) {
+				markedStopped = true
 				return // Fatal
 			}
 		default:
@@ -489,7 +504,7 @@ func (c *client) executeReadLoop(cborReader *cbor.Decoder) {
 		}
 		// The non-error exit condition is having no more entries remaining.
 		if !c.hasEntriesRemaining() {
-			stoppedWhenIdle = true
+			markedStopped = true
 			return
 		}
 	}
